@@ -63,9 +63,20 @@ def table_records(repo):
         return [{"name": fn + "/is a literal table", "status": "unknown", "backend": "extractor", "time_s": 0, "function": fn, "clause": "table",
                  "reason": "EEMS_COMMANDS is not a dict literal"}], {}
     names, libs = library_command_names(repo)
+    from contracts.eems2_reference import REFERENCE
+
     for k, v in table.items():
         recs.append({"name": fn + "/%s -> %s names an existing command" % (k, v), "status": "unsat" if v in names else "sat", "backend": "exhaustive",
                      "time_s": 0, "function": fn, "clause": "table", "goal": "%r in the EEMS libraries %s" % (v, libs), "v2": k, "v3": v})
+    for k, ref in REFERENCE.items():
+        if ref is None:
+            continue
+        got = table.get(k)
+        recs.append({"name": fn + "/%s is mapped to the command with its EEMS 2.0 meaning (%s)" % (k, ref), "status": "unsat" if got == ref else "sat",
+                     "backend": "exhaustive", "time_s": 0, "function": fn, "clause": "table", "goal": "table[%r] == %r (is %r)" % (k, ref, got), "v2": k, "v3": got})
+    extra = sorted(set(table) - set(REFERENCE))
+    recs.append({"name": fn + "/the table covers exactly the EEMS 2.0 vocabulary", "status": "unsat" if not extra and set(REFERENCE) <= set(table) else "sat",
+                 "backend": "exhaustive", "time_s": 0, "function": fn, "clause": "table", "goal": "extra %s missing %s" % (extra, sorted(set(REFERENCE) - set(table)))})
     return recs, table
 
 
@@ -376,6 +387,17 @@ def v2_cases(repo, table):
                 res = "Named"
             if variant == "outfile":
                 a2.append(("OutFileName", "out.csv"))
+            orders = [a2]
+            if variant in ("new", "outfile"):
+                orders.append(list(reversed(a2)))  # NewFieldName / OutFileName first: the result name must not depend on argument order
+                orders.append(a2[-1:] + a2[:-1])
+            for oi, ordr in enumerate(orders[1:], 1):
+                v2alt = "%s(%s)" % (v2, ", ".join("%s = %s" % kv for kv in ordr))
+                kept = [kv for kv in ordr if kv[0] not in ("NewFieldName", "OutFileName")]
+                v3alt = "%s = %s(%s)" % (res, v3, ", ".join("%s = %s" % kv for kv in kept))
+                if res not in ("Src", "Src2"):
+                    pre0 = "Src = EEMSRead(InFileName = data.csv, InFieldName = Elev)\nSrc2 = EEMSRead(InFileName = data.csv, InFieldName = Elev2)\n"
+                    cases.append({"v2": pre0 + v2alt, "v3": pre0 + v3alt, "name": v2, "variant": "%s/order%d" % (variant, oi)})
             v2src = "%s%s(%s)" % ("Named = " if variant == "named" else "", v2, ", ".join("%s = %s" % kv for kv in a2))
             v3src = "%s = %s(%s)" % (res, v3, ", ".join("%s = %s" % kv for kv in args))
             if res in ("Src", "Src2"):
